@@ -24,6 +24,20 @@ Engines
     pool programs in several orders, parse()/emit() interleavings, the same Program emitted twice, concurrent threads, and
     compares with the text of the program alone; a failing pair is confirmed in fresh processes and reported as the replay.
 
+  * near-collisions (harness/props/c10_twins.py, coq/Lang/SortKey.v, coq/Lang/MemoSession.v): inputs that are distinct for the statement
+    but equal for a careless canonicalisation.  NAME FAMILIES (key1 / key01 / key001, key2 / key10, Key1 / KEY1, key_1 / key1_, equal
+    lengths, prefixes) are put into every set whose iteration reaches the text through sorted() - button polls, LCD ticks, ultrasonic
+    helpers, the names hoisted out of if / try / while / for bodies - on devices that share all other attributes: a sorted(..., key=k)
+    whose key ties on them keeps the set's iteration order (C10_keyed_sort_tie_refuted) and shows under the hash-seed / dictated-order
+    oracle; the inventory flags every sorted() over a set that takes a key (C10_sorted_sites_keyless).  TWIN FAMILIES: one device call in
+    every spelling of the same values (int / float / bool literals, folded constants, defaults omitted or spelled out, keyword or
+    positional), at every nesting depth, on two device names, with one argument changed; one pin in several device classes; one source up
+    to white space / comments / line ends - the members of a family are transpiled in one process in every rotation (each member first
+    once): a memo table whose key equality is coarser than the result (functools.lru_cache: 100 == 100.0 == True + 99; a key that forgets
+    the indentation, an argument, the white space) makes a member come out with another member's text (C10_memo_conflation_refuted,
+    C10_lru_cache_on_duration_refuted; harmless ones: C10_format_float_cache_harmless, C10_typed_cache_harmless); the inventory lists every
+    memoising decorator (C10_no_cached_helper); the emitter's literal helpers are called in sessions of one process against the model.
+
 F-C10-promotion-order (hoisting order of _promote_branch_decls = set iteration order) is REPAIRED in the project
 (`for name in sorted(new_names)` / `sorted(promoted_set)`, known_findings.d/C10.json kind "fixed"); the model is the model
 of the repaired code (C10_order_independent, no guard), so EVERY generated program is under the byte-identity oracle and
@@ -43,8 +57,8 @@ from harness import common as C
 
 META = {
     "id": "C10",
-    "technique": "Coq proof (set-iteration oracle model of variable promotion as repaired: every hoisting loop walks sorted(set); sorted() sites; inventory of set iterations and module state regenerated from the source by an ast walker, with the obligation that NO set iteration reaches an order-sensitive consumer unsorted) + extracted-model correspondence with parse()+emit() and with _promote_branch_decls under dictated iteration orders + sha256 oracle for EVERY generated program across PYTHONHASHSEED subprocesses / dictated set iteration orders / process environments / repeated / interleaved transpilations; session model of the ctx registries with a module-level store (statelessness theorem + refutation for a shared default) instantiated by the regenerated inventory of module-level mutable objects, setdefault/get defaults and seeded ctx keys; one-name-two-roles sessions (every ordered pair of 25 roles), parse/emit interleavings, concurrent threads",
-    "level_text": "Theorems C10_* (coq/Props/C10.v): the declaration-and-block skeleton of the translation is independent of every set-iteration oracle, for every program of the modelled fragment and every construct, without guard (C10_order_independent, C10_construct_order_independent, C10_session_order_independent; the two construct shapes that used to separate two oracles no longer do: C10_two_names_in_a_branch, C10_two_unmet_names_in_a_loop), and the order that comes out is the one a code-point-ordered walk yields (C10_promotion_order_is_canonical, C10_translation_is_canonical); sorted() sites are order independent; the same algorithm walking the sets unsorted (the code before the repair of F-C10-promotion-order) IS order dependent (C10_unsorted_walk_is_order_dependent) and the repair changed no output inside the former guard (C10_repair_conservative); the rank oracles used by the harness are permutations and reach every order; every set iteration found in the current parser.py/emitter.py by the translator is sorted or order-insensitive (C10_no_unsorted_set_iteration), the sorted() sites named by the property and the four loops of the repair are present and sorted (C10_sorted_sites_present, C10_repaired_sites_sorted), no function mutates module-level state (C10_no_module_state), only pure modules are imported and no hash/id/open/eval... is used (C10_imports_are_pure, C10_no_ambient_builtins). Statelessness across calls: the session model of the device-name registries (coq/Lang/DevSession.v: ctx keys created by setdefault / read by get, a module-level store threaded through the session) gives every program its own translation whatever was transpiled before, provided no lazily created key takes a module-level object as default (C10_session_stateless, C10_parse_leaves_module_store), one shared default suffices to refute it (C10_shared_default_refuted, witness x = SerialMonitor(..) then x = Potentiometer(..); y = x.read()), and the configuration regenerated from the current source is inside the guard (C10_current_source_defaults_fresh, C10_session_stateless_current_source); no module-level mutable object of the three files is mutated or escapes (C10_module_objects_never_escape, C10_no_shared_default, C10_ctx_seeded_fresh). The model is run against the real parse()+emit() skeleton and against _promote_branch_decls with dictated orders (exact equality); the property itself is tested by sha256 across hash seeds, dictated set orders, other CPython builds, processes, repetitions and interleavings, on every generated program.",
+    "technique": "Coq proof (set-iteration oracle model of variable promotion as repaired: every hoisting loop walks sorted(set); sorted() sites; inventory of set iterations and module state regenerated from the source by an ast walker, with the obligation that NO set iteration reaches an order-sensitive consumer unsorted) + extracted-model correspondence with parse()+emit() and with _promote_branch_decls under dictated iteration orders + sha256 oracle for EVERY generated program across PYTHONHASHSEED subprocesses / dictated set iteration orders / process environments / repeated / interleaved transpilations; session model of the ctx registries with a module-level store (statelessness theorem + refutation for a shared default) instantiated by the regenerated inventory of module-level mutable objects, setdefault/get defaults and seeded ctx keys; one-name-two-roles sessions (every ordered pair of 25 roles), parse/emit interleavings, concurrent threads; near-collisions: name families that tie under non-injective sort keys in every sorted() site (model of sorted(set, key=k): any tie separates two iteration orders, an injective key none; inventory of key= arguments), twin families (one call in every spelling of the same values / depth / device name / with one argument changed, one pin in several classes, one source up to white space) in rotating sessions of one process (model of a memo table in front of the emitter's literal helpers: invisible iff the key equality refines the result; Python's == on 100 / 100.0 / True refutes it for _emit_duration_ms; inventory of cache decorators), the real helpers called in sessions against the model",
+    "level_text": "Theorems C10_* (coq/Props/C10.v): the declaration-and-block skeleton of the translation is independent of every set-iteration oracle, for every program of the modelled fragment and every construct, without guard (C10_order_independent, C10_construct_order_independent, C10_session_order_independent; the two construct shapes that used to separate two oracles no longer do: C10_two_names_in_a_branch, C10_two_unmet_names_in_a_loop), and the order that comes out is the one a code-point-ordered walk yields (C10_promotion_order_is_canonical, C10_translation_is_canonical); sorted() sites are order independent; the same algorithm walking the sets unsorted (the code before the repair of F-C10-promotion-order) IS order dependent (C10_unsorted_walk_is_order_dependent) and the repair changed no output inside the former guard (C10_repair_conservative); the rank oracles used by the harness are permutations and reach every order; every set iteration found in the current parser.py/emitter.py by the translator is sorted or order-insensitive (C10_no_unsorted_set_iteration), the sorted() sites named by the property and the four loops of the repair are present and sorted (C10_sorted_sites_present, C10_repaired_sites_sorted), no function mutates module-level state (C10_no_module_state), only pure modules are imported and no hash/id/open/eval... is used (C10_imports_are_pure, C10_no_ambient_builtins). Statelessness across calls: the session model of the device-name registries (coq/Lang/DevSession.v: ctx keys created by setdefault / read by get, a module-level store threaded through the session) gives every program its own translation whatever was transpiled before, provided no lazily created key takes a module-level object as default (C10_session_stateless, C10_parse_leaves_module_store), one shared default suffices to refute it (C10_shared_default_refuted, witness x = SerialMonitor(..) then x = Potentiometer(..); y = x.read()), and the configuration regenerated from the current source is inside the guard (C10_current_source_defaults_fresh, C10_session_stateless_current_source); no module-level mutable object of the three files is mutated or escapes (C10_module_objects_never_escape, C10_no_shared_default, C10_ctx_seeded_fresh). Canonical order with a key (coq/Lang/SortKey.v): sorted(set, key=k) is a stable sort of the set as iterated; for EVERY key type, order and key function a tie between two different names separates two iteration orders and the tied pair comes out in the set's order (C10_keyed_sort_tie_refuted, C10_keyed_sort_tie_keeps_set_order), a key that is injective on the set under a total transitive order gives one result (C10_keyed_sort_partial), the key-less sorted() of the code is the injective instance key = name (C10_keyless_sort_is_the_identity_key, C10_identity_key_injective), natural number order ties key1 / key01 (C10_natural_key_refuted), and no sorted() over a set in the current source takes a key (C10_sorted_sites_keyless). Memoised helpers (coq/Lang/MemoSession.v): a memo table with any key equality, any hit / eviction policy and any initial table of true results in front of _emit_duration_ms / _format_float is invisible provided the calls it identifies have one result (C10_memo_stateless_partial); one conflation makes the second program come out with the first one's text (C10_memo_conflation_refuted); under Python's == the int 100 of a defaulted on_ms and the float 100.0 of a spelled-out one are conflated by a cache on _emit_duration_ms (C10_lru_cache_on_duration_refuted) whereas a cache on _format_float alone and any typed=True cache are harmless (C10_format_float_cache_harmless, C10_typed_cache_harmless); the current source has no memoising decorator, hence its helpers are stateless for every session (C10_no_cached_helper, C10_helpers_stateless_current_source). The model is run against the real parse()+emit() skeleton and against _promote_branch_decls with dictated orders (exact equality); the property itself is tested by sha256 across hash seeds, dictated set orders, other CPython builds, processes, repetitions and interleavings, on every generated program.",
     "level_note": "Trusted: Coq kernel, translator harness/gen/setsites.py (syntactic, fail-closed ast walker), extraction, OCaml driver, CPython's PYTHONHASHSEED as the source of set-order variation. CPython set internals are over-approximated by an arbitrary permutation oracle; absence of module-level state is shown statically for the two transpiler files (ast walk) and by observation (repeated / interleaved transpilations), not by proof about CPython.",
     "design_ref": "DESIGN.md section 4 C10, Appendix B.1, B.3",
 }
@@ -240,6 +254,42 @@ def template_programs(rng):
                  ("s", ("if", [[("a", x, t1)], [("a", x, t2), ("a", x, t1)], [("a", y, t2)]], True)),
                  ("def", "fn1_", [("try", [[("a", z, t2)], [("a", z, t1)]])])]
         out.append({"items": items, "ty": dict(g.ty), "origin": "template flex-types"})
+    return out
+
+
+def family_skeletons(rng, n):
+    """skeleton programs whose hoisted names are one NAME FAMILY (harness/props/c10_twins.py: names that tie under plausible
+    non-injective sort keys - key1 / key01 / Key1 / key_1 ...): the order sorted() gives them is under the correspondence"""
+    from harness.props import c10_twins
+    out = []
+    for k in range(n):
+        names, kinds = c10_twins.name_family(rng, {"cnd"})
+        g = SkelGen(rng, 2, tight=False)
+        g.names = list(names)
+        t = rng.choice([0, 1, 2, 3])
+        g.ty = {x: t for x in names}
+        g.ty["cnd"] = 0
+        h = max(1, len(names) // 2)
+        order = list(names)
+        rng.shuffle(order)
+        body = [g.assign(x) for x in order]
+        shape = ["if", "ifelse", "try", "wh", "for", "nested"][k % 6]
+        if shape == "if":
+            c = ("if", [body], False)
+        elif shape == "ifelse":
+            c = ("if", [body[:h], body[h:] + body[:1]], True)
+        elif shape == "try":
+            c = ("try", [body[:h], list(reversed(body))])
+        elif shape == "wh":
+            c = ("wh", [("if", [body], False)])
+        elif shape == "for":
+            c = ("for", "i1_", [("try", [body, [("a", "cnd", 0)]])])
+        else:
+            c = ("if", [[("wh", body[:h])], body], True)
+        pre = [("s", ("a", "cnd", 0))]
+        place = ["top", "def", "main"][(k // 6) % 3]
+        items = pre + ([("s", c)] if place == "top" else [("def", "fn1_", [c])] if place == "def" else [("main", [c])])
+        out.append({"items": items, "ty": dict(g.ty), "origin": "template name-family " + "+".join(kinds)})
     return out
 
 
@@ -675,6 +725,22 @@ def transpile(sources, seed, texts=False, script=None, adv=None, python=None, en
     return r
 
 
+def other_env():
+    """OTHER_ENV + the package reached through another path (a symbolic link to the same source tree): a text that embeds
+    __file__, the home directory or the user name is not a function of the source"""
+    import os
+    alt = C.BUILD / "c10-elsewhere" / "site-packages-of-someone-else"
+    try:
+        alt.parent.mkdir(parents=True, exist_ok=True)
+        if alt.is_symlink() and os.readlink(alt) != str(C.REPO / "src"):
+            alt.unlink()
+        if not alt.exists():
+            os.symlink(str(C.REPO / "src"), str(alt))
+        return {**OTHER_ENV, "PYTHONPATH": str(alt)}
+    except OSError:
+        return dict(OTHER_ENV)
+
+
 def run_variant(sources, v, seed0, texts=False):
     """v = ("seed", n): PYTHONHASHSEED=n;  ("adv", key): dictated set order `key` under PYTHONHASHSEED=seed0"""
     if v[0] == "seed":
@@ -682,7 +748,7 @@ def run_variant(sources, v, seed0, texts=False):
     if v[0] == "py":
         return transpile(sources, v[2], texts=texts, python=v[1])
     if v[0] == "env":
-        return transpile(sources, seed0, texts=texts, env=OTHER_ENV)
+        return transpile(sources, seed0, texts=texts, env=other_env())
     return transpile(sources, seed0, texts=texts, adv=v[1])
 
 
@@ -815,6 +881,8 @@ def run(ctx: C.Ctx):
         tmpl = [s for s in skels if s["origin"].startswith("template")]
         rnd = [s for s in skels if not s["origin"].startswith("template")]
         skels = rng.sample(tmpl, min(len(tmpl), 110)) + rnd
+    # hoisted names that tie under plausible non-injective sort keys (key1 / key01 / Key1 ...)
+    skels += family_skeletons(rng, 90 if thorough else 24)
     for s in skels:
         s["src"] = render(s["items"], rng)
 
@@ -844,6 +912,13 @@ def run(ctx: C.Ctx):
         src, feats = device_program(rng, skeleton=sk["items"], skeleton_ty=sk["ty"])
         devs.append({"src": src, "feats": feats, "origin": "mixed", "in_guard": True, "model_ok": sk.get("model_ok")})
 
+    # near-collisions of NAMES: every sorted() site gets names that tie under plausible non-injective keys, on devices that also
+    # share their other attributes (harness/props/c10_twins.py)
+    from harness.props import c10_twins
+    for k in range(150 if thorough else 36):
+        src, feats = c10_twins.collision_program(rng, k)
+        devs.append({"src": src, "feats": feats, "origin": "collision", "in_guard": True})
+
     progs = skels + devs
     sources = [p["src"] for p in progs]
 
@@ -864,7 +939,12 @@ def run(ctx: C.Ctx):
         if not base[i]["ok"]:
             n_fail_transpile += 1
     dist["programs"] = {"skeleton": len(skels), "device": sum(1 for d in devs if d["origin"] == "device"),
-                        "mixed": sum(1 for d in devs if d["origin"] == "mixed")}
+                        "mixed": sum(1 for d in devs if d["origin"] == "mixed"), "collision": sum(1 for d in devs if d["origin"] == "collision")}
+    tie_kinds = {}
+    for d in devs:
+        for k in d["feats"].get("name_tie_kinds", []):
+            tie_kinds[k] = tie_kinds.get(k, 0) + 1
+    dist["collision_programs_by_kind_of_name_tie"] = tie_kinds
     dist["rejected_by_transpiler"] = n_fail_transpile
     for d in devs:
         if not d["ref"]["ok"]:
@@ -902,7 +982,7 @@ def run(ctx: C.Ctx):
             if sb != p["ref"]["sha"]:
                 if v[0] == "env":
                     report("environment", p, v0, v, p["ref"]["sha"], sb,
-                           "emitted C++ differs between two processes that differ only in their environment (locale, time zone, home, user, hook switch)")
+                           "emitted C++ differs between two processes that differ only in their environment (locale, time zone, home, user, hook switch, path under which the package is found)")
                 elif v[0] == "seed":
                     report("hashseed", p, v0, v, p["ref"]["sha"], sb,
                            "emitted C++ differs between two hash seeds")
@@ -1152,9 +1232,21 @@ def run(ctx: C.Ctx):
     evaluations += ev_roles
     dist["name_collisions"] = dist_roles
 
+    # ------------------------------------------------------------------ property oracle 4: twin families (one call in every spelling
+    # of the same values / at every depth) in every rotation in one process; correspondence 5: the emitter's literal helpers
+    ev_tw, nt_tw, dist_tw = c10_twins.run_twins(ctx, C, seeds[0])
+    evaluations += ev_tw
+    dist["twin_families"] = dist_tw
+    n_helper = 0
+    if have_model:
+        n_helper, dist_h = c10_twins.run_helper_correspondence(ctx, C, seeds[0])
+        dist["emitter_literal_helpers"] = dist_h
+
     feats_total = {}
     for d in devs:
         for k, v in d["feats"].items():
+            if not isinstance(v, (int, bool)):
+                continue
             feats_total[k] = feats_total.get(k, 0) + (1 if v else 0)
     dist["device_programs_with_feature"] = feats_total
     dist["hash_seeds"] = seeds
@@ -1165,10 +1257,10 @@ def run(ctx: C.Ctx):
     dist["origins"] = origins
     multi = sum(1 for d in devs if max(len(v) for v in d.get("sorted_obs", {"x": []}).values() or [[]]) >= 2)
     ctx.coverage.update({
-        "evaluations": evaluations + n_corr + n_prom + n_sorted,
+        "evaluations": evaluations + n_corr + n_prom + n_sorted + n_helper,
         "distinct_nontrivial": len({p["src"] for p in progs if p["origin"] != "device"}
-                                   & {s["src"] for s in skels if sum(1 for _ in _iter_hoists(s.get("model0", {}))) > 0}) + multi + n_prom + nt_roles,
-        "rule": "skeleton programs: templates (k = 0..6 names first assigned in an if / if-else / if-elif-else / while / for / try body, at top level, in a function, in the main loop, nested) + seeded random nested programs; device programs: random subsets of every device class with 0..6 instances, callbacks, lists, multi-signature functions, tuple swaps; mixed = both. Every program is transpiled in one subprocess per hash seed and per dictated set order (the name `set` of parser.py/emitter.py bound to a subclass iterating sorted / reverse sorted / in a keyed pseudo-random order), then in one process twice in a row, in reverse order between unrelated programs, shuffled, and (a sample) in fresh processes; sha256 of the text is compared. Name collisions (c10_roles.py): for every ordered pair (a, b) of 25 roles an identifier can have, with a name of its own, the sessions `A B B'` / `all A, then B B' reversed` against `B B'` alone (A = name in role a, B = same name in role b with all probes of b, B' = B + one probe of a); 60 (240) pool programs giving 2-4 of 6 pool names random roles, in 3 (6) orders in one process and after a module reset; parse/emit interleavings (p_i p_j e_j e_i, p_i p_j e_i e_j e_i, p_i e_i e_i, p_i t_j e_i); 4 concurrent threads; 220 (900) + 60 device-registry programs of the DevSession fragment in two orders, compared with transl_dev. Half of the random skeleton programs and most templates put several new names into one branch (the region the guard of the repaired finding F-C10-promotion-order used to exclude; counted in distribution). Non-trivial = programs that hoist at least one declaration, every role pair, pool program and accepted device-registry program, device programs whose sorted sites have >= 2 elements, and every dictated-order promotion case.",
+                                   & {s["src"] for s in skels if sum(1 for _ in _iter_hoists(s.get("model0", {}))) > 0}) + multi + n_prom + nt_roles + nt_tw,
+        "rule": "skeleton programs: templates (k = 0..6 names first assigned in an if / if-else / if-elif-else / while / for / try body, at top level, in a function, in the main loop, nested) + seeded random nested programs; device programs: random subsets of every device class with 0..6 instances, callbacks, lists, multi-signature functions, tuple swaps; mixed = both. Every program is transpiled in one subprocess per hash seed and per dictated set order (the name `set` of parser.py/emitter.py bound to a subclass iterating sorted / reverse sorted / in a keyed pseudo-random order), then in one process twice in a row, in reverse order between unrelated programs, shuffled, and (a sample) in fresh processes; sha256 of the text is compared. Name collisions (c10_roles.py): for every ordered pair (a, b) of 25 roles an identifier can have, with a name of its own, the sessions `A B B'` / `all A, then B B' reversed` against `B B'` alone (A = name in role a, B = same name in role b with all probes of b, B' = B + one probe of a); 60 (240) pool programs giving 2-4 of 6 pool names random roles, in 3 (6) orders in one process and after a module reset; parse/emit interleavings (p_i p_j e_j e_i, p_i p_j e_i e_j e_i, p_i e_i e_i, p_i t_j e_i); 4 concurrent threads; 220 (900) + 60 device-registry programs of the DevSession fragment in two orders, compared with transl_dev. Half of the random skeleton programs and most templates put several new names into one branch (the region the guard of the repaired finding F-C10-promotion-order used to exclude; counted in distribution). Near-collisions (c10_twins.py): 36 (150) collision programs + 24 (90) skeleton programs whose names are a NAME FAMILY (2-6 identifiers that tie under leading zeros / natural order / case / underscores / length / prefix / first-and-last character keys; every family keeps one pair of its first kind) in 2-7 of the sets behind sorted() (buttons with one callback, LCDs with identical animations, ultrasonics, names first assigned in if / if-else / elif / try / while / for bodies at top level, in a function, in the main loop) - they go through every oracle above; TWIN FAMILIES: for each of 26 device methods every distinct spelling (int, float, bool, folded constants, defaults omitted, all positional) at 2 (7) depths, one spelling at 4 (7) depths on two device names, the call with one argument changed; one pin in several device classes; plain statements with equal-valued literals; one source in 11 white-space / comment / line-end variants - 7 sessions in one process each (rotation r starts every family at its r-th member, odd rotations walk the families backwards), a program's text must be the same in all of them and after a module reset (12 (60) sampled); a difference is confirmed and shrunk in fresh processes. Helper sessions: 30 (120) random + 7 fixed sessions of 2-4 programs of 1-5 calls of _emit_duration_ms / _format_float with ints, whole and fractional dyadic floats, bools, negative values and expression text, one session per module reset, against MemoSession.session under the regenerated cache table. Non-trivial = programs that hoist at least one declaration, every twin family, every role pair, pool program and accepted device-registry program, device programs whose sorted sites have >= 2 elements, and every dictated-order promotion case.",
         "samples": [skels[0]["src"], skels[len(skels) // 2]["src"], devs[0]["src"][:1500]],
         "distribution": dist,
         "guard": "none: every generated program is under the byte-identity oracle and the correspondence (C10_order_independent is unconditional). F-C10-promotion-order is repaired by a fix: commit (known_findings.d/C10.json kind=fixed) - a fixed entry suppresses nothing: on a tree without the sorted() calls C10_no_unsorted_set_iteration / C10_repaired_sites_sorted do not check, the witness replay fails and is reported as a VIOLATION",
@@ -1177,12 +1269,16 @@ def run(ctx: C.Ctx):
                        "everything of the translation except declarations and block structure (expression text, devices) - covered by the sha256 oracle only",
                        "absence of module-level state / ambient inputs: static ast inventory (module-level and class-level mutable objects: mutated by name, mutated through a followed local alias, or escaping into a call / container / return value / default argument; mutable defaults, cache decorators, imports, hash/id/open/eval...) + observation; the alias analysis is intra-procedural and flow-insensitive: an object that escapes is reported, what the receiver does with it is not followed; state kept in attributes of imported classes/modules or in closures created at import time is found by the session oracle only",
                        "the session model (Lang/DevSession.v) covers the device-name registries and the value-returning device methods read/read_us/measure_distance/is_pressed/get_state/get_brightness at column 0; every other per-call table (functions, signatures, helpers, list_info, tmp_counter ...) is covered by the role-pair oracle and the inventory only",
+                       "sorted(set, key=k): modelled for an arbitrary key (Lang/SortKey.v); the three concrete keys (natural order, ASCII lower, length) are ASCII-only (Python's \\d and str.lower also cover other scripts)",
+                       "memo tables: modelled in front of _emit_duration_ms and _format_float only (Lang/MemoSession.v), floats as exact rationals (-0.0 / nan / inf outside); a memo in front of any other function is covered by the inventory (cache decorators, module-level state) and the twin-family oracle only",
+                       "set displays / set comprehensions keep CPython's own order under the dictated-order runs (only sets built through the name `set` are dictated); they vary with the hash seeds only",
                        "platform differences other than hash seeds (one CPython build here)"],
-        "trusted_base": C.COMMON_TRUSTED + ["harness/props/c10_roles.py (role templates, session scripts, fresh-process confirmation of a failing pair)","harness/gen/setsites.py (syntactic set-kind inference over parser.py/emitter.py, fail-closed)",
+        "trusted_base": C.COMMON_TRUSTED + ["harness/props/c10_twins.py (name families, twin families, rotating sessions, reading the helper results back)", "harness/props/c10_roles.py (role templates, session scripts, fresh-process confirmation of a failing pair)","harness/gen/setsites.py (syntactic set-kind inference over parser.py/emitter.py, fail-closed)",
                                             "harness/impl/c10_impl.py (runs parse()+emit(); OrderedNames dictates the iteration order of `var_declared - base`; AdvSet dictates the iteration order of every set built through the name `set` in parser.py/emitter.py - set displays/comprehensions keep CPython's order)",
                                             "PYTHONHASHSEED as the only source of set-order variation exercised"],
     })
-    ctx.assumptions += ["a module-level object handed to a call / stored / returned may be mutated by whoever receives it (the inventory reports the escape, it does not follow it)","every iteration order of a Python set is some permutation of its elements (perm_oracle)",
+    ctx.assumptions += ["sorted() is stable and a memo table compares keys by == (CPython semantics, modelled in Lang/SortKey.v / Lang/MemoSession.v)",
+                        "a module-level object handed to a call / stored / returned may be mutated by whoever receives it (the inventory reports the escape, it does not follow it)","every iteration order of a Python set is some permutation of its elements (perm_oracle)",
                         "str hashing is the only hash-seed dependent ingredient of the transpiler's sets (their elements are str)"]
 
 
